@@ -272,6 +272,68 @@ def check(rep, F, tier, replay=None):
             if not ok:
                 rep.violation("IDX", "%s|add-without-take" % FNS[k], "%s adds an offered UTxO whose index is not taken out of the available collection in the same iteration: it can be selected again" % FNS[k], {"loc": facts.loc_str(t[0], fn_)})
 
+    # ---- MARGINAL: an offered UTxO is priced with the registration that commits it ------------------------------------------------
+    rep.rule("MARGINAL", "the marginal fee added to the target for a selected UTxO (fee_for_input) prices the same registration that add_regular_utxo commits: both hand add_regular_input_extended the input's reference-script size (min_fee charges the tiered reference-script fee for it)")
+    price = F.by_key("TxInputsBuilder::add_regular_input")
+    commit = F.by_key("TxInputsBuilder::add_regular_utxo")
+    ffi = F.by_key("TransactionBuilder::fee_for_input")
+    if len(price) != 1 or len(commit) != 1 or len(ffi) != 1:
+        rep.lost("pricing / commit registration functions not found")
+    else:
+        def ext_arg(fid_):
+            fn_ = F.fns[fid_]
+            org_ = ff.Origins(F, fid_)
+            for c_ in F.calls(fid_):
+                if (c_.to or "").endswith("add_regular_input_extended"):
+                    t_ = fn_["bbs"][c_.bb]["t"]
+                    return org_.of_operand(t_[3][4]) if len(t_[3]) > 4 else None
+            return None
+        rep.inst("MARGINAL")
+        # fee_for_input must price through TxInputsBuilder::add_regular_input (directly or via TransactionBuilder::add_regular_input)
+        reach = set()
+        work = [ffi[0]]
+        for _ in range(3):
+            nxt = []
+            for f_ in work:
+                for c_ in F.calls(f_):
+                    if c_.to in F.fns and c_.to not in reach:
+                        reach.add(c_.to)
+                        nxt.append(c_.to)
+            work = nxt
+        if price[0] not in reach and commit[0] not in reach:
+            rep.lost("fee_for_input no longer prices through add_regular_input / add_regular_utxo (re-anchor MARGINAL)")
+        else:
+            pa = ext_arg(price[0]) if commit[0] not in reach else ext_arg(commit[0])
+            ca = ext_arg(commit[0])
+            if pa is None or ca is None:
+                rep.lost("add_regular_input_extended call not found in pricing / commit path")
+            else:
+                commit_has = any("closure:" in x or "script_ref" in x or x.startswith("call:") for x in ca)
+                price_has = any("closure:" in x or "script_ref" in x or x.startswith("call:") or x.startswith("arg:") for x in pa)
+                if commit_has and not price_has:
+                    rep.violation("MARGINAL", "fee_for_input|ref-script-size", "selection prices an offered UTxO with fee_for_input -> add_regular_input (reference-script size: None) but commits it with add_regular_utxo (reference-script size of its script_ref): min_fee afterwards includes the tiered reference-script fee the target never accounted for, so add_inputs_from can report success with inputs below outputs + min fee", {})
+
+    # ---- COMMIT-once: every chosen index is committed exactly once ------------------------------------------------------------
+    rep.rule("COMMIT-once", "random-improve commits the chosen indices by traversing associated_indices itself (values / iter), each entry once - not by a keyed lookup per output, which visits the shared entry of two identical outputs twice and counts its inputs twice")
+    ri_ = ids["ri"]
+    rfn_ = F.fns[ri_]
+    n_commit = 0
+    for c in adds["ri"]:
+        t = rfn_["bbs"][c.bb]["t"]
+        o = orgs["ri"].of_operand(t[3][1])
+        if not is_chosen(o):
+            continue
+        n_commit += 1
+        rep.inst("COMMIT-once")
+        cs = org_calls(o)
+        keyed = sorted(x for x in cs if "BTreeMap" in x and x.rsplit("::", 1)[-1] in ("get", "get_mut", "entry", "get_key_value", "remove"))
+        trav = [x for x in cs if ("BTreeMap" in x or "btree_map" in x or "btree::map" in x) and x.rsplit("::", 1)[-1] in ("values", "iter", "into_iter", "into_values", "values_mut", "iter_mut", "next")]
+        if keyed:
+            rep.violation("COMMIT-once", "cip2_random_improve_by|keyed-lookup", "cip2_random_improve_by commits the chosen inputs through a keyed lookup (%s) inside a loop over the outputs: two identical outputs share one entry, its inputs are added and counted twice, and selection reports success with inputs that do not cover outputs + fee" % ", ".join(x.rsplit("::", 2)[-1] for x in keyed), {"loc": facts.loc_str(t[0], rfn_)})
+        elif not trav:
+            rep.lost("cip2_random_improve_by: the commit loop neither looks entries up by key nor traverses the map (re-anchor COMMIT-once)")
+    rep.floor("commit sites of chosen indices in random-improve", 1, n_commit)
+
     # ---- SHARE: one available-index object per strategy arm ---------------------------------------------------------------
     rep.rule("SHARE", "selection passes that can run one after the other in add_inputs_from (per-asset passes, the remaining-ADA pass, the fee top-up loop) work on the same available-index collection, so a UTxO taken by one pass cannot be taken again by a later one")
     fid = ids["main"]
